@@ -58,7 +58,14 @@ pub fn panic_class(msg: &str) -> String {
     };
     let file = loc.split(':').next().unwrap_or("");
     let file = file.rsplit('/').next().unwrap_or(file);
-    let m: String = m.chars().filter(|c| !c.is_ascii_digit()).take(40).collect();
+    let m: String = m
+        .lines()
+        .next()
+        .unwrap_or("")
+        .chars()
+        .filter(|c| !c.is_ascii_digit())
+        .take(40)
+        .collect();
     format!("{m}|{file}")
 }
 
